@@ -7,7 +7,7 @@ def run(res, a):
     vlib.proof_stage(res, "C09", files=["C09abandon"])
     envs = [None, {"VERIF_RECLAIM_ON_FREE": "1"}, {"VERIF_NO_ARENA": "1", "VERIF_RECLAIM_ON_FREE": "1"}, {"VERIF_TARGET_SEGMENTS": "2"},
             {"VERIF_BIG_ARENA": "1"}, {"VERIF_NO_ARENA": "1"}, {"VERIF_BIG_ARENA": "1", "VERIF_RECLAIM_ON_FREE": "1"}]
-    conc.run_conc(res, "C09", a.seed, a.tier, envs=envs if a.tier == "thorough" else envs[:5], nseeds_quick=16)
+    conc.run_conc(res, "C09", a.seed, a.tier, envs=envs if a.tier == "thorough" else envs[:5], nseeds_quick=24)
     res.cov["rule"] = ("scheduler harness, mode exit: virtual threads terminate through mi_thread_done at random points while blocks they allocated are "
                        "still held by other threads, which later verify the byte pattern and free them (with reclaim-on-free on and off, arena and "
                        "OS-allocated segments); at quiescence a forced collect must leave no abandoned segment and no block. distinct = distinct schedules")
